@@ -9,9 +9,9 @@
 EXTENDS Pmis
 
 CONSTANTS NN, MinNP, MaxNP, Sym
-VARIABLES gm, np, rp, st, phase, turn, fin
+VARIABLES gm, gr, np, rp, st, phase, turn, fin
 
-vars == <<gm, np, rp, st, phase, turn, fin>>
+vars == <<gm, gr, np, rp, st, phase, turn, fin>>
 
 Pairs == IF Sym THEN {p \in (0..(NN - 1)) \X (0..(NN - 1)) : p[1] < p[2]}
          ELSE {p \in (0..(NN - 1)) \X (0..(NN - 1)) : p[1] # p[2]}
@@ -21,10 +21,11 @@ Edges(mask) == {PairSeq[k] : k \in {j \in 1..Len(PairSeq) : EdgeOn(mask, j)}}
 Graph(mask) == LET E == Edges(mask)
                IN  [n |-> NN, adj |-> [i \in 0..(NN - 1) |->
                         {i} \cup {j \in 0..(NN - 1) : <<i, j>> \in E \/ (Sym /\ <<j, i>> \in E)}]]
-G == Graph(gm)
+G == gr            \* = Graph(gm), computed once per behaviour
 Parts(n, k) == {s \in [1..(k + 1) -> 0..n] : s[1] = 0 /\ s[k + 1] = n /\ \A j \in 1..k : s[j] <= s[j + 1]}
 
 Init == /\ gm \in 0..(2 ^ Cardinality(Pairs) - 1)
+        /\ gr = Graph(gm)
         /\ np \in MinNP..MaxNP
         /\ rp \in Parts(NN, np)
         /\ st = PmInit(Graph(gm), np, rp)
@@ -34,20 +35,20 @@ DecideAct(r) == /\ phase = "decide" /\ r \notin turn
                 /\ st' = Decide(G, np, rp, r, st)
                 /\ turn' = IF turn \cup {r} = PmRanks(np) THEN {} ELSE turn \cup {r}
                 /\ phase' = IF turn \cup {r} = PmRanks(np) THEN "claims" ELSE "decide"
-                /\ UNCHANGED <<gm, np, rp, fin>>
+                /\ UNCHANGED <<gm, gr, np, rp, fin>>
 ClaimsAct(r) == /\ phase = "claims" /\ r \notin turn
                 /\ st' = ApplyClaims(np, r, st)
                 /\ turn' = IF turn \cup {r} = PmRanks(np) THEN {} ELSE turn \cup {r}
                 /\ phase' = IF turn \cup {r} = PmRanks(np) THEN "exchange" ELSE "claims"
-                /\ UNCHANGED <<gm, np, rp, fin>>
+                /\ UNCHANGED <<gm, gr, np, rp, fin>>
 ExchangeAct == /\ phase = "exchange"
                /\ st' = Exchange(G, np, rp, st)
                /\ phase' = IF TotalUndone(np, st) = 0 THEN "renumber" ELSE "decide"       \* comm.reduce(MPI_SUM, n_undone)
-               /\ UNCHANGED <<gm, np, rp, turn, fin>>
+               /\ UNCHANGED <<gm, gr, np, rp, turn, fin>>
 RenumberAct == /\ phase = "renumber"
                /\ fin' = Renumber(G, np, rp, st)
                /\ phase' = "done"
-               /\ UNCHANGED <<gm, np, rp, st, turn>>
+               /\ UNCHANGED <<gm, gr, np, rp, st, turn>>
 Finished == phase = "done" /\ UNCHANGED vars
 
 Next == (\E r \in PmRanks(np) : DecideAct(r) \/ ClaimsAct(r)) \/ ExchangeAct \/ RenumberAct \/ Finished
